@@ -540,7 +540,7 @@ func c01HashGen(r *rng, n int, w *bufio.Writer) {
 			s = pick(r, []string{"", "a", "ab", "/banner", "example.org", "\x00\xff\x80", "bücher.example", "ü", "büche", "\xbccher", "пример.рф", "日本語.jp",
 				"http://bücher.example/реклама?ü=1", "\u0130", "a\u212a", "\U0001F600.example"})
 		case 1:
-			b := make([]byte, r.n(40))
+			b := make([]byte, nCount(r, r.n(40), 8, 40, 6000)) // 1 string in 8: log-scale length up to 6000 bytes
 			for i := range b {
 				b[i] = byte(r.n(256))
 			}
